@@ -185,6 +185,18 @@ def walk(factory, points, **kw):
         sched = sched + [cand[points[j] % len(cand)]]
 
 
+def scaled(cases, tier):
+    """Validation aid: enumerations are not covered by the runner's VERIF_SCALE, so a thorough enumeration honours it
+    here by keeping every round(1/scale)-th case (a scaled run is a smoke test of the tier, not an exhaustive one)."""
+    import os
+
+    scale = float(os.environ.get("VERIF_SCALE", "1") or "1")
+    step = max(1, round(1 / scale)) if (tier == "thorough" and 0 < scale < 1) else 1
+    for i, c in enumerate(cases):
+        if i % step == 0:
+            yield c
+
+
 def sched_all(K, slice_=None):
     d = {"mode": "all", "K": K}
     if slice_:
